@@ -65,7 +65,7 @@ MSG_RE = re.compile(r"^\nparse error near (\S+) \(line (\d+) symbol (\d+) - line
 def gen_grammars(ctx, n, style="mixed"):
     gs = []
     for i in range(n):
-        gg = [P.GGen, P.GGenBT, P.GGenSW][i % 3](ctx.rng)
+        gg = [P.GGen, P.GGenBT, P.GGenSW, P.GGenIN][i % 4](ctx.rng)
         rules = gg.grammar()
         gs.append(dict(id="g%d" % i, rules=rules, nact=gg.nact))
     return gs
@@ -152,6 +152,8 @@ def run_core(ctx, opts=("d",), force=False):
                     else:
                         mlines.append("grammar %s/%s %d %s" % (gid, o, ptx, sexp))
                         mlines.append("gen %s/%s %d" % (gid, o, 1 if B.OPTSETS[o]["inline"] else 0))
+                        if o == "d":
+                            mlines.append("opt %s/d" % gid)
                 except P.ConvError as e:
                     oi["conv_err"] = str(e)
             ginfo["opts"][o] = oi
@@ -211,6 +213,8 @@ def run_core(ctx, opts=("d",), force=False):
         for o, oi in gi["opts"].items():
             if "model" in oi:
                 oi["gen"] = mres.get(("gen", "%s/%s" % (gid, o)))
+                if o == "d":
+                    oi["opt"] = mres.get(("opt", "%s/d" % gid))
                 if oi.get("compiles"):
                     oi["nils"] = bt.nils((gid, o))
                 # call sites in the emitted code: with or without the failure branch (CheckAlwaysSucceeds)
@@ -404,3 +408,17 @@ def compare_decisions(gi, o):
         if forms != want:
             out.append(("gen-always-succeeds", "call sites of %s are emitted as %s, model decides %s" % (nm, forms, want)))
     return out
+
+
+def compare_optimizer(gi):
+    """the model's -switch pass applied to the default tree must give the tree the implementation built under -switch"""
+    d, s_ = gi["opts"].get("d", {}), gi["opts"].get("s", {})
+    if not d.get("opt") or "model" not in s_:
+        return []
+    stable, _, sexp = d["opt"].partition(" ")
+    if sexp != s_["model"]:
+        # first differing rule
+        a, b = P.parse_sexp(sexp)[1:], P.parse_sexp(s_["model"])[1:]
+        k = next((i for i, (x, y) in enumerate(zip(a, b)) if x != y), -1)
+        return [("optimizer-tree", "the tree built under -switch differs from the model's rewrite of the default tree at rule %s" % (d["names"][k] if 0 <= k < len(d.get("names", [])) else k))]
+    return []
